@@ -100,6 +100,17 @@ class PDA:
         self._final_states = set(self._final_states)
         for state in self._final_states:
             self._states.add(state)
+        # What the given transition function uses belongs to the PDA
+        for key, value in self._transition_function.to_dict().items():
+            self._states.add(key[0])
+            if key[1] != Epsilon():
+                self._input_symbols.add(key[1])
+            self._stack_alphabet.add(key[2])
+            for s_to, stack_to in value:
+                self._states.add(s_to)
+                for stack_symbol in stack_to:
+                    if stack_symbol != Epsilon():
+                        self._stack_alphabet.add(stack_symbol)
         self._cfg_variable_converter = None
 
     def set_start_state(self, start_state: Any):
